@@ -88,8 +88,10 @@ type Base struct {
 	From2 *Slice // appended slice
 	Val   Term   // appended value (appendU)
 	Aux   int64
-	Alias *Base  // shares the backing array of this base (bytes.Trim…)
-	Elems []Term // known elements (variadic argument arrays)
+	Alias *Base // shares the backing array of this base (bytes.Trim…)
+	// MayAlias: bases whose backing array this one may share (joins, loop generalisation)
+	MayAlias []*Base
+	Elems    []Term // known elements (variadic argument arrays)
 }
 
 // Slice: slice or string value.
